@@ -4,40 +4,54 @@
 (* flag raised from outside at any instant (a signal; the error cap and fatal  *)
 (* errors are instances), or by the collector.                                 *)
 EXTENDS Pipe2
-CONSTANTS Links, MaxBatches, Full, MaxStops
-VARIABLES budget, nstop
-mcvars == << allvars, budget, nstop >>
-MCInit == Init /\ asend = (CHOOSE l \in Links : TRUE) /\ budget = MaxBatches /\ nstop = 0
-KB == UNCHANGED << budget, nstop >>
+CONSTANTS Links, MaxBatches, Full, MaxStops,
+          MaxSignals,      \* signals (SIGINT / SIGTERM / SIGHUP) delivered at any instant
+          Handler          \* the signal handler (util/lib.rs init_ctrlc_handler): it raises the stop flag; "count" = as coded: the SECOND signal ends the
+                           \* process at once (ungraceful by design). "flag" = a seeded defect kept as a switch: "the flag was already set" is taken for
+                           \* "second signal" - but the collector raises the same flag at the error cap and on fatal errors (MC_Pipe2_handler_mutant shows it)
+VARIABLES budget, nstop,
+          nsig, killed     \* signals delivered so far; the handler has ended the process without joining anybody
+mcvars == << allvars, budget, nstop, nsig, killed >>
+MCInit == Init /\ asend = (CHOOSE l \in Links : TRUE) /\ budget = MaxBatches /\ nstop = 0 /\ nsig = 0 /\ killed = FALSE
+KS == UNCHANGED << nsig, killed >>
+KB == UNCHANGED << budget, nstop, nsig, killed >>
 KA == UNCHANGED asend
-Reader == \/ (\E n \in 1..Full : RSendStart(n)) /\ budget > 0 /\ budget' = budget - 1 /\ UNCHANGED nstop /\ KA
-          \/ (RCheckStop \/ REnqueue \/ RSendFail) /\ KB /\ KA
-          \/ RSendDone(rlen < Full) /\ KB /\ KA                     \* a batch that is not full is the last one
-          \/ REofExit /\ budget = 0 /\ KB /\ KA                     \* the input ended at a batch boundary
-Analysis == \/ (ACheck \/ ATake \/ ARecv(arem) \/ ARecvDisc \/ AView \/ AJoinStart \/ AExit \/ ADrop) /\ KB /\ KA
-            \/ (\E l \in Links : ASpawn(l)) /\ KB /\ KA
-            \/ (\E l \in Links : ADispatchStartL(l)) /\ KB
-            \/ AEnqueue /\ KB
-Validator(l) == (VTake(l) \/ VRecv(l) \/ VExit(l)) /\ KB /\ KA
-Writer == (WTake \/ WRecv \/ WStopBreak \/ (WPushed /\ ~stop) \/ WRecvDisc \/ WDrop) /\ KB /\ KA
-Main == (MDrop \/ MForwardEnd \/ MJoined) /\ KB /\ KA
-Collector == ((\E b \in BOOLEAN : CRecv(b) /\ (b => nstop < MaxStops) /\ nstop' = (IF b THEN nstop + 1 ELSE nstop) /\ UNCHANGED budget) \/ (CClosed /\ KB)) /\ KA
-Signal == ExtStop /\ nstop < MaxStops /\ nstop' = nstop + 1 /\ UNCHANGED budget /\ KA
-Finished == AllDone /\ UNCHANGED mcvars
+Reader == /\ ~killed
+          /\ \/ (\E n \in 1..Full : RSendStart(n)) /\ budget > 0 /\ budget' = budget - 1 /\ UNCHANGED nstop /\ KS /\ KA
+             \/ (RCheckStop \/ REnqueue \/ RSendFail) /\ KB /\ KA
+             \/ RSendDone(rlen < Full) /\ KB /\ KA                     \* a batch that is not full is the last one
+             \/ REofExit /\ budget = 0 /\ KB /\ KA                     \* the input ended at a batch boundary
+Analysis == /\ ~killed
+            /\ \/ (ACheck \/ ATake \/ ARecv(arem) \/ ARecvDisc \/ AView \/ AJoinStart \/ AExit \/ ADrop) /\ KB /\ KA
+               \/ (\E l \in Links : ASpawn(l)) /\ KB /\ KA
+               \/ (\E l \in Links : ADispatchStartL(l)) /\ KB
+               \/ AEnqueue /\ KB
+Validator(l) == ~killed /\ (VTake(l) \/ VRecv(l) \/ VExit(l)) /\ KB /\ KA
+Writer == ~killed /\ (WTake \/ WRecv \/ WStopBreak \/ (WPushed /\ ~stop) \/ WRecvDisc \/ WDrop) /\ KB /\ KA
+Main == ~killed /\ (MDrop \/ MForwardEnd \/ MJoined) /\ KB /\ KA
+Collector == ~killed /\ ((\E b \in BOOLEAN : CRecv(b) /\ (b => nstop < MaxStops) /\ nstop' = (IF b THEN nstop + 1 ELSE nstop) /\ UNCHANGED budget /\ KS) \/ (CClosed /\ KB)) /\ KA
+\* a signal: the handler raises the flag (whatever its value) and may end the process
+Signal == /\ ~killed /\ ~AllDone /\ nsig < MaxSignals /\ nsig' = nsig + 1
+          /\ killed' = (CASE Handler = "count" -> nsig >= 1 [] Handler = "flag" -> stop)
+          /\ IF stop THEN UNCHANGED allvars ELSE ExtStop /\ KA
+          /\ UNCHANGED << budget, nstop >>
+Finished == (AllDone \/ killed) /\ UNCHANGED mcvars
 MCNext == Reader \/ Analysis \/ (\E l \in Links : Validator(l)) \/ Writer \/ Main \/ Collector \/ Signal \/ Finished
 \* CRecv(FALSE) is a stuttering step (statistics messages): excluded from fairness and from the next-state relation's progress
-Progress == Reader \/ Analysis \/ (\E l \in Links : Validator(l)) \/ Writer \/ Main \/ (CClosed /\ KB /\ KA)
+Progress == ~killed /\ (Reader \/ Analysis \/ (\E l \in Links : Validator(l)) \/ Writer \/ Main \/ (CClosed /\ KB /\ KA))
 MCSpec == MCInit /\ [][MCNext]_mcvars /\ WF_mcvars(Reader) /\ WF_mcvars(Analysis) /\ (\A l \in Links : WF_mcvars(Validator(l)))
-          /\ WF_mcvars(Writer) /\ WF_mcvars(Main) /\ WF_mcvars(CClosed /\ KB /\ KA)
+          /\ WF_mcvars(Writer) /\ WF_mcvars(Main) /\ WF_mcvars(~killed /\ CClosed /\ KB /\ KA)
 \* C17: the process ends (no deadlock, no livelock) whatever the stop condition and the schedule
-Terminates == <>AllDone
+Terminates == <>(AllDone \/ killed)
+\* C17: one signal never ends the process ungracefully, whatever had raised the stop flag before it
+OrderlyOnOneSignal == killed => nsig >= 2
 \* every worker has finished before main returns; the collector is the last one
 AllJoined == (mpc = "done") => (rpc = "done" /\ apc = "done" /\ wpc = "done" /\ \A l \in Spawned : vpc[l] = "done")
 CollectorLast == cpc = "done" => (mpc = "done")
 \* the writer's output is a number of whole batches, never more than were read
 WholeOut == wout <= MaxBatches - budget
 \* no deadlock: a state without a progress step is the final state
-NoDeadlock == AllDone \/ ENABLED Progress
+NoDeadlock == AllDone \/ killed \/ ENABLED Progress
 TypeOK == /\ rpc \in {"check", "sending", "sent", "done"} /\ apc \in {"check", "recv", "taken", "batch", "sending", "join", "joining", "exited", "done"}
           /\ wpc \in {"recv", "taken", "got", "exited", "done"} /\ mpc \in {"drop", "forward", "joinA", "done"} /\ cpc \in {"loop", "done"}
           /\ Len(qRA) <= ReaderCap /\ \A l \in Spawned : qV[l] <= CapOf(l)
